@@ -238,6 +238,16 @@ def check_seq_cache(ctx, prop, model=True):
         d = 3 if (ctx.thorough or kind == "Cache") else 2
         progs = small_scope_programs(d, kind, kt, vt)
         run_seq(ctx, progs, "Trace_CacheSeq", prop, "%s[%s,%s] small-scope depth %d" % (kind, kt, vt, d))
+    # long bucket chains: the whole key set pinned into one chain (entries must survive slot reuse and chain growth)
+    prng = random.Random(lib.seed() * 911 + 3)
+    pinned = []
+    for i in range(12 if not ctx.thorough else 120):
+        nk = prng.choice([7, 9, 12])
+        p = gen.cache_program(prng, "Cache", "", "", unit=1, length=110, nkeys=nk, note="one-chain nk=%d" % nk)
+        p["pin"] = one_chain_pin(["k%d" % (j + 1) for j in range(nk)], same_h=(i % 3 == 0))
+        pinned.append(p)
+    for (kind, kt, vt) in CONTAINERS_CACHE[:3]:
+        run_seq(ctx, [instantiate(p, kind, kt, vt) for p in pinned], "Trace_CacheSeq", prop, "%s[%s,%s] one-chain layouts" % (kind, kt, vt))
     # code -> spec: seeded random programs with boundary-aimed clock advances, ns and s regimes
     n, length = (60, 120) if not ctx.thorough else (1500, 300)
     if drift:
@@ -693,3 +703,186 @@ def check_c12(ctx):
 
 
 CHECKS.update({"C10": check_c10, "C12": check_c12})
+
+
+# ------------------------------------------------------------------ C15 janitor / lifecycle
+
+def life_programs(ctx):
+    US, MS, SEC = 1000, 1_000_000, 1_000_000_000
+    progs = []
+    variants = [("New", True, -1 * MS), ("New", True, 0), ("New", True, 1 * MS), ("New", False, 0), ("New", True, 3 * MS),
+                ("NewDefault", True, -5 * MS), ("NewDefault", True, 0), ("NewDefault", True, 1 * MS), ("NewDefault", True, 250 * US)]
+    for kind in ("Cache", "CacheOf"):
+        for (ctor, hasintv, intv) in variants:
+            for cb in (True, False):
+                period = intv if (hasintv and intv > 0) else (10 * SEC if not hasintv else 1 * MS)
+                steps = [{"op": "set", "k": "k1", "d": 5 * US}, {"op": "set", "k": "k2", "d": 2 * period}, {"op": "set", "k": "k3", "d": 0},
+                         {"op": "observe"}, {"op": "advance", "d": 6 * US}, {"op": "observe"},
+                         {"op": "advance", "d": period - 6 * US - 1 * US}, {"op": "advance", "d": 1 * US}, {"op": "observe"},
+                         {"op": "advance", "d": period}, {"op": "advance", "d": period}, {"op": "observe"},
+                         {"op": "get", "k": "k3"}, {"op": "set", "k": "k4", "d": 10 * US}, {"op": "set", "k": "k5", "d": 10 * US},
+                         {"op": "advance", "d": period // 2}, {"op": "get", "k": "k4"}, {"op": "advance", "d": period // 4}, {"op": "observe"},
+                         {"op": "deleteexpired"}, {"op": "set", "k": "k6", "d": 1 * US}, {"op": "advance", "d": 3 * period + 7 * US}, {"op": "observe"},
+                         {"op": "advance", "d": period}, {"op": "observe"}]
+                progs.append({"kind": kind, "ctor": ctor, "hasintv": hasintv, "intv": intv, "cb": cb, "steps": steps,
+                              "note": "%s %s interval=%s cb=%s" % (kind, ctor, intv if hasintv else "default", cb)})
+    return progs
+
+
+def check_c15(ctx):
+    sc = ctx.scratch()
+    d = lib.mktemp("verif-life-")
+    life = [{"kind": k, "n": n, "entries": e, "intv": 1_000_000, "cb": cb}
+            for k in ("Cache", "CacheOf") for (n, e) in ((1, 3), (50, 2), (20, 0)) for cb in (False, True)]
+    if ctx.thorough:
+        life += [{"kind": k, "n": 400, "entries": 3, "intv": iv, "cb": True} for k in ("Cache", "CacheOf") for iv in (1_000_000, 10_000_000_000)]
+    job = {"programs": life_programs(ctx), "lifecycle": life}
+    pin, out = os.path.join(d, "life.json"), os.path.join(d, "life.ndjson")
+    json.dump(job, open(pin, "w"))
+    sc.run("life", inp=pin, out=out, timeout=1800)
+    runs = lib.split_traces(out)
+    # an uninformative GC window is never a verdict
+    for lines in runs:
+        for x in lines:
+            e = json.loads(x)
+            if e.get("op") == "collected" and not e.get("ok"):
+                raise Inconclusive("baseline finaliser did not run within the GC window; lifecycle observation says nothing")
+    rejected, st = lib.validate_runs("Trace_CacheLife", runs, env={"PROP": "C15"}, timeout=1800)
+    ctx.cov["traces_validated_against_impl"] += len(runs)
+    ctx.cov["events_validated"] += st["events"]
+    ctx.cov["states"] += st["distinct"]
+    ctx.cov["transitions"] += st["generated"]
+    ctx.cov["janitor_programs"] = len(job["programs"])
+    ctx.cov["lifecycle_batches"] = len(life)
+    ctx.sample({"label": "janitor program", "events": [slim(json.loads(x)) for x in runs[2][:8]]})
+    ctx.sample({"label": "lifecycle", "events": [slim(json.loads(x)) for x in runs[-1]]})
+    for (i, evi, lines) in rejected:
+        ev = json.loads(lines[evi]) if evi < len(lines) else {}
+        hdr = json.loads(lines[0])
+        ctx.violation({"kind": "life", "header": hdr, "rejected_event_index": evi, "event": ev, "trace": [slim(json.loads(x)) for x in lines]},
+                      "janitor/lifecycle run '%s' rejected by Trace_CacheLife at event %d: %s" % (hdr.get("note"), evi, json.dumps(slim(ev))))
+    ctx.assumptions += ["virtual ticker: the janitor's time.NewTicker is fed by clock advances; after each advance the harness waits (bounded, real time) until fired ticks are consumed and Count is stable",
+                        "GC / finaliser timing is not controllable: bounded waits (20 s), INCONCLUSIVE if an unrelated baseline finaliser does not run in the same window",
+                        "life traces are in microseconds (the 10 s default interval does not fit 32-bit TLC integers in ns)"]
+
+
+CHECKS["C15"] = check_c15
+
+
+# ------------------------------------------------------------------ C14 data races (external observer: the Go race detector)
+
+def native_lin_scenarios(ctx):
+    """Small natively parallel programs (no pins, no ticks) derived from the scheduler families."""
+    out = {"map": [], "cache": []}
+    strat = {"kind": "none"}
+    for (kind, kt, vt) in [("Map", "", ""), ("MapOf", "int", "int"), ("MapOf", "string", "any")]:
+        for s in scen.map_families(kind, kt, vt, strat):
+            ops = [o for t in s["threads"] for o in t] + s["preload"]
+            if any(o["op"] in ("Range", "BulkStore", "BulkDelete", "BulkLoad") for o in ops):
+                continue
+            out["map"].append({"name": "native-" + s["name"], "map": s["map"], "preload": s["preload"], "threads": s["threads"], "final": s["final"]})
+    allowed = {"Set", "SetForever", "Get", "GetOrSet", "GetAndSet", "GetOrCompute", "Compute", "GetAndDelete", "Delete", "DeleteExpired", "Clear", "Count"}
+    for (kind, kt, vt) in [("Cache", "", ""), ("CacheOf", "string", "any")]:
+        for s in scen.cache_families(kind, kt, vt, strat):
+            ops = [o for t in s["threads"] for o in t] + s["preload"]
+            if any(o["op"] not in allowed for o in ops):
+                continue
+            sc2 = copy.deepcopy(s)
+            sc2["cache"]["cb"] = ""
+            for o in [o for t in sc2["threads"] for o in t] + sc2["preload"]:
+                if "d" in o:
+                    o["d"] = 3_600_000_000_000 if o["d"] > 0 else o["d"]   # one hour: real time never reaches it
+            out["cache"].append({"name": "native-" + s["name"], "cache": sc2["cache"], "preload": sc2["preload"], "threads": sc2["threads"], "final": s["final"]})
+    return out
+
+
+def check_c14(ctx):
+    import concurrent.futures, glob
+    sc = lib.Scratch(race=True, noshim=True)
+    d = lib.mktemp("verif-race-")
+    nproc = 8 if not ctx.thorough else 16
+    programs, ops = (6, 2500) if not ctx.thorough else (40, 6000)
+
+    def stress(i):
+        log = os.path.join(d, "race%d" % i)
+        stp = os.path.join(d, "st%d.json" % i)
+        p = sc.run("stress", stats=stp, extra=["-seed", str(lib.seed() * 100 + i), "-programs", str(programs), "-ops", str(ops)],
+                   env={"GORACE": "halt_on_error=0 exitcode=0 log_path=%s history_size=3" % log, "GOMAXPROCS": str([2, 4, 8, 16][i % 4])}, check=False, timeout=3600)
+        if p.returncode != 0:
+            raise Inconclusive("race stress process failed:\n" + p.stdout[-2000:])
+        return json.load(open(stp))
+
+    tot = {"ops": 0, "corrupt": 0, "programs": 0}
+    with concurrent.futures.ThreadPoolExecutor(max_workers=4) as ex:
+        for st in ex.map(stress, range(nproc)):
+            for k in tot:
+                tot[k] += st[k]
+    reports = []
+    for f in glob.glob(os.path.join(d, "race*.*")):
+        txt = open(f).read()
+        for r in txt.split("==================")[1:]:
+            if "DATA RACE" in r:
+                reports.append(r.strip())
+    repo_reports = [r for r in reports if "/internal/xsync/" in r or any(("/" + f) in r for f in ("xsync_map.go", "xsync_mapof.go", "item.go", "itemof.go", "cache.go", "cacheof.go", "map.go", "mapof.go"))]
+    ctx.cov["race_stress"] = dict(tot, processes=nproc, race_reports=len(reports), race_reports_in_repository_code=len(repo_reports))
+    seen = set()
+    for r in repo_reports:
+        key = "\n".join(l.strip() for l in r.splitlines() if ".go:" in l)[:600]
+        sig = tuple(sorted(set(l.split()[-1].split(" +")[0] for l in r.splitlines() if ".go:" in l and ("xsync" in l or "cache/" in l))))[:4]
+        if sig in seen:
+            continue
+        seen.add(sig)
+        ctx.violation({"kind": "race", "report": r[:6000]}, "race detector report in repository code: " + " | ".join(sig))
+    if reports and not repo_reports:
+        raise Inconclusive("race reports outside repository code (harness bug?):\n" + reports[0][:2000])
+    if tot["corrupt"]:
+        ctx.violation({"kind": "payload", "corrupt": tot["corrupt"]}, "a value read back from the cache/map had a broken checksum (unsafe publication)")
+    # natively parallel, stamped histories validated for linearizability (real parallelism)
+    nl = native_lin_scenarios(ctx)
+    reps = 150 if not ctx.thorough else 3000
+    for which, spec in (("map", "Trace_MapLin"), ("cache", "Trace_CacheLin")):
+        pin, out, stp = os.path.join(d, which + ".json"), os.path.join(d, which + ".ndjson"), os.path.join(d, which + ".stats")
+        json.dump({"scenarios": nl[which], "reps": reps}, open(pin, "w"))
+        sc.run("lin", inp=pin, out=out, stats=stp, env={"GORACE": "halt_on_error=0 exitcode=0 log_path=%s" % os.path.join(d, "racelin")}, timeout=3600)
+        runs = lib.split_traces(out)
+        rejected, st = lib.validate_runs(spec, runs, env={"PROP": "ALL"}, timeout=3600)
+        ctx.cov["traces_validated_against_impl"] += len(runs)
+        ctx.cov["events_validated"] += st["events"]
+        ctx.cov["states"] += st["distinct"]
+        ctx.cov["transitions"] += st["generated"]
+        ctx.cov.setdefault("trace_validation", []).append({"label": "native parallel " + which, "spec": spec, "runs": json.load(open(stp))["runs"], "histories": len(runs), "events": st["events"]})
+        if runs:
+            ctx.sample({"label": "native " + which, "history": [slim(json.loads(x)) for x in runs[0][:12]]})
+        for (i, evi, lines) in rejected:
+            ev = json.loads(lines[evi]) if evi < len(lines) else {}
+            ctx.violation({"kind": "native-lin", "spec": spec, "event": ev, "history": [slim(json.loads(x)) for x in lines]},
+                          "natively parallel history of %s not accepted by %s at event %d: %s" % (json.loads(lines[0]).get("note"), spec, evi, json.dumps(slim(ev))))
+    for f in glob.glob(os.path.join(d, "racelin*")):
+        if "DATA RACE" in open(f).read() and ("xsync" in open(f).read()):
+            ctx.violation({"kind": "race", "report": open(f).read()[:6000]}, "race detector report during native linearizability runs")
+    # access modes of the shared words, extracted from the working tree, against the table the CLHT specification assumes
+    isc = ctx.scratch()
+    modes = json.load(open(os.path.join(isc.dir, "modes.json")))
+    table = {}
+    for a in modes:
+        if not a["file"].startswith("internal/xsync/"):
+            continue
+        key = "%s:%s:%s:%s" % (os.path.basename(a["file"]), a["func"], a["field"], "w" if a["write"] else "r")
+        table.setdefault(key, set()).add(a["mode"])
+    table = {k: "+".join(sorted(v)) for k, v in table.items()}
+    exp_path = os.path.join(lib.SPECS, "access_modes.json")
+    if os.path.exists(exp_path):
+        exp = json.load(open(exp_path))
+        diff = sorted(k for k in set(exp) | set(table) if exp.get(k) != table.get(k))
+        ctx.cov["access_modes"] = {"sites": len(table), "differences_from_spec_table": diff[:20]}
+        for k in diff[:10]:
+            ctx.drift.append("access mode of %s is %s in the working tree, %s in the table the CLHT specification assumes (specs/access_modes.json)" % (k, table.get(k), exp.get(k)))
+    else:
+        json.dump(table, open(exp_path, "w"), indent=1, sort_keys=True)
+    ctx.cov["states"] = max(ctx.cov["states"], 1)
+    ctx.assumptions += ["the Go race detector is the observer of the compiled, uninstrumented code (this is the one property TLC cannot decide about a binary); it only reports races on executions that happen",
+                        "payload integrity: values are pointers to freshly initialised structs whose checksum is verified on every read",
+                        "a report whose frames are all outside repository code is INCONCLUSIVE (harness), never a violation"]
+
+
+CHECKS["C14"] = check_c14
